@@ -267,6 +267,7 @@ func c10RaceChild(args []string) {
 
 func checkC10(args []string) {
 	run := vx.NewRun("C10", "model_checking", args)
+	activeRun = run
 	run.Rule = "(1) TLC explores every interleaving of the row-pipeline protocol model (spec/RowSync.tla: claim, waitFor fast/slow path, cond.Wait, signal store/check/lock/broadcast, context read/export, token recorder) for the bounded grid: safety invariants, deadlock freedom and termination under weak fairness; (2) real parallel encodes run with hooks under seeded perturbation profiles, each event log is trace-validated by spec/TVRowSync.tla and the bytes must equal the unperturbed run; hangs are deadlocks; (3) seeded concurrent programs of public API calls sharing the pools, each result compared with its solo result, also executed in a -race build. distinct = distinct (picture size, profile, seed) traces + distinct concurrent programs"
 	run.Assumptions = []string{"hook sequence numbers come from one global atomic counter, so the recorded order respects the library's own synchronisation", "schedules are those produced by the Go runtime plus delay injection at hook points", "GOMAXPROCS is fixed to 8 during the runs (the dependence on GOMAXPROCS itself is C12)"}
 	old := runtime.GOMAXPROCS(8)
